@@ -87,8 +87,8 @@ struct DDMap : Profile {
                 case 3:
                     p.ops.push_back(mkop(c, n, {t, rf, 1 + r.sizeish(90), (int64_t)(r.next() >> 16)}));
                     break;
-                case 4:
-                    p.ops.push_back(mkop(c, n, {}));
+                case 4: // second argument odd: ask twice before using the number
+                    p.ops.push_back(mkop(c, n, {0, (int64_t)r.below(2)}));
                     break;
                 case 5:
                 case 8:
@@ -289,6 +289,8 @@ struct DDMap : Profile {
             const std::string &k    = o.kind;
             bool               done = true;
             int32              fid  = s.open[c] ? s.fid[c] : FAIL;
+            if (k == "open" || k == "restart")
+                last_newref = 0; // the file record may be a new one
             if (k == "open") {
                 if (s.open[c])
                     done = false;
@@ -347,6 +349,8 @@ struct DDMap : Profile {
                 ctx.tr(r);
                 if (r == 0)
                     ctx.fail("ref-exhausted", "ref-exhausted", "a new reference number was refused although free ones exist");
+                if (modn(o.arg(1), 2) == 0)
+                    last_newref = r; // (the number handed out last by the general allocator)
                 Key key(tag, r);
                 if (s.m.count(key))
                     ctx.fail("ref-in-use", "ref-in-use:putnew", strf("new ref %u for tag %u is already in use", r, tag));
@@ -467,7 +471,12 @@ struct DDMap : Profile {
                 uint16 r = general ? Hnewref(fid) : Htagnewref(fid, tag);
                 ctx.tr(r);
                 ctx.st.checks++;
-                last_newref = r;
+                // the number the general allocator handed out last has not been used by anybody: it is not handed out again
+                if (general && r != 0 && r == last_newref && !ref_used_anywhere(s, r) && s.m.size() < 60000)
+                    ctx.fail("ref-in-use", "ref-in-use:issued-twice",
+                             strf("Hnewref returned %u again: whoever got it the time before has not stored its object yet", r));
+                if (general)
+                    last_newref = r;
                 if (r == 0)
                     ctx.fail("ref-exhausted", "ref-exhausted:" + k, "0 returned although free reference numbers exist");
                 if (general) {
@@ -479,6 +488,24 @@ struct DDMap : Profile {
                         wrapped |= kv.first.second == 65535;
                     if (wrapped)
                         ctx.probe("newref-after-wrap");
+                    // A caller may hold the number for a while before it stores its object (the SD interface reserves the
+                    // reference of a dataset at SDcreate and stores it at SDend): asked again meanwhile, the allocator has to
+                    // hand out another number as long as there is one.
+                    if (o.arg(1) % 2 == 1) {
+                        uint16 r2 = Hnewref(fid);
+                        ctx.tr(r2);
+                        ctx.st.checks++;
+                        if (r2 == 0)
+                            ctx.fail("ref-exhausted", "ref-exhausted:" + k, "0 returned although free reference numbers exist");
+                        if (ref_used_anywhere(s, r2) || Hexist(fid, DFTAG_WILDCARD, r2) != FAIL)
+                            ctx.fail("ref-in-use", "ref-in-use:newref", strf("Hnewref returned %u which is in use", r2));
+                        if (r2 == r && s.m.size() < 60000) // (with one free number left there is nothing else to hand out)
+                            ctx.fail("ref-in-use", "ref-in-use:issued-twice",
+                                     strf("two successive calls of Hnewref both returned %u: whoever got it first has not stored its object yet", r));
+                        last_newref = r2;
+                        if (wrapped)
+                            ctx.probe("newref-twice-after-wrap");
+                    }
                 }
                 else if (s.m.count(Key(tag, r)) || Hexist(fid, tag, r) != FAIL)
                     ctx.fail("ref-in-use", "ref-in-use:tagnewref", strf("Htagnewref(%u) returned %u which is in use", tag, r));
